@@ -158,6 +158,25 @@ class TBuilder(Ty):
         return "({} × (List {}))".format(self.ctor_ty().lean(), self.cmd_ty().lean())
 
 
+class TEffect(Ty):
+    """an object with state that the translated code changes by calling its methods (the formula under construction):
+    a Lean value of a hand-written state type, threaded through the statements"""
+    def __init__(self, name, lean_ty):
+        self.name, self.lean_ty = name, lean_ty
+
+    def lean(self):
+        return self.lean_ty
+
+
+class TEffectClass(Ty):
+    """a class argument (`formula_class`) whose only use is to create the effect object"""
+    def __init__(self, name):
+        self.name = name
+
+    def lean(self):
+        raise Unsupported("class argument used as a value")
+
+
 class TMaybe(Ty):
     """a local variable that is assigned on some paths only (reading it elsewhere is UnboundLocalError)"""
     def __init__(self, elem):
@@ -188,6 +207,8 @@ class TVar(Ty):
     def __hash__(self):
         return id(self)
 
+
+EFFECT_VIEWS = {}        # effect name -> {abstract interface: Lean template}, filled from the specs
 
 INT, BOOL, STR, NONE, RANGE, ERASED = TInt(), TBool(), TStr(), TNone(), TRange(), TErased()
 
@@ -290,6 +311,8 @@ def coerce(code, frm, to):
     if frm == to or isinstance(frm, TVar) or isinstance(to, TVar):
         unify(frm, to)
         return code
+    if isinstance(frm, TEffect) and isinstance(to, TAbs) and to.name in EFFECT_VIEWS.get(frm.name, {}):
+        return EFFECT_VIEWS[frm.name][to.name].format(c=code)
     if isinstance(to, TMaybe):
         if isinstance(frm, TMaybe):
             if frm.elem == to.elem:
